@@ -105,14 +105,24 @@ pub fn buffer_deadline() -> std::time::Duration {
 }
 
 static BATCHES: AtomicU64 = AtomicU64::new(0);
+static UPDATE_BATCHES: AtomicU64 = AtomicU64::new(0);
 
-/// a subscription matcher / updates loop finished processing one batch of candidates
+/// a subscription matcher finished processing one batch of candidates
 pub fn batch_done() {
     BATCHES.fetch_add(1, Ordering::SeqCst);
 }
 
 pub fn batches_done() -> u64 {
     BATCHES.load(Ordering::SeqCst)
+}
+
+/// an updates loop finished processing one batch of candidates
+pub fn update_batch_done() {
+    UPDATE_BATCHES.fetch_add(1, Ordering::SeqCst);
+}
+
+pub fn update_batches_done() -> u64 {
+    UPDATE_BATCHES.load(Ordering::SeqCst)
 }
 
 // ---------------------------------------------------------------------------
